@@ -190,6 +190,46 @@ pub fn run(ctx: &Ctx) -> Report {
     });
     let mut st = st.merge(st2);
 
+    // (4) what the key provider is asked for: exactly the access key and the session token of the request, as
+    //     written (nothing trimmed, case-folded, decoded twice or dropped), with the server's region / service and
+    //     the request's UTC date
+    {
+        let aks: Vec<&str> = vec!["AKIDEXAMPLE", "akidexample", "AKID EXAMPLE", "AKID%45XAMPLE", "AKIDEXAMPLE ", "AKID\u{c9}XAMPLE", "A", "AKID+EXAMPLE", "AKIDEXAMPLE%20"];
+        let long_tok = "T".repeat(4096);
+        let toks: Vec<Option<&str>> = vec![None, Some("tok"), Some("a+b/c=="), Some("%41%2B"), Some("inner  blanks"), Some("t,with,commas"), Some("t\u{f6}k"), Some(long_tok.as_str()), Some("TOK"), Some("tok ")];
+        let db: Vec<(String, String)> = aks.iter().map(|a| (a.to_string(), e2e::SECRET.to_string())).collect();
+        let n4 = (aks.len() * toks.len() * 2 * 2) as u64;
+        let base4 = total1 + total2 + 10_000_000;
+        let st4 = par_sweep(n4, |i, st| {
+            let mut x = i as usize;
+            let carrier = if x % 2 == 0 { Carrier::Header } else { Carrier::Query };
+            x /= 2;
+            let token_signed = x % 2 == 0;
+            x /= 2;
+            let tok = toks[x % toks.len()];
+            x /= toks.len();
+            let ak = aks[x];
+            let mut plan = e2e::base_plan(carrier);
+            plan.access_key = ak.to_string();
+            plan.token = tok.map(|t| t.to_string());
+            if tok.is_some() && token_signed && carrier == Carrier::Header {
+                plan.signed.push("x-amz-security-token".into());
+            }
+            let built = build(&plan);
+            let case = Case { wire: WireReq::from_wire(&built.wire), cfg: Cfg::basic(e2e::base_instant()), prov: ProvSpec::Derive(db.clone()) };
+            let before = st.violations.len();
+            let j = e2e::judge_into(base4 + i as u64, &case, st);
+            if st.violations.len() > before {
+                if let Some(v) = st.violations.last_mut() {
+                    v.what = format!("provider-identity(access key {:?}, token {:?}):{}", ak, tok.map(|t| t.chars().take(20).collect::<String>()), v.what);
+                }
+            }
+            st.state(&(j.reference.stage as u8, j.reference.ask.clone().map(|a| (a.access_key, a.token.map(|t| t.len()))), "identity"));
+            st.nontrivial(&(ak, tok, carrier, token_signed, "identity"));
+        });
+        st = st.merge(st4);
+    }
+
     // (3) histories on one thread: the server configuration changes between validations while a credential
     //     scoped for the previous configuration is presented (nothing remembered from an earlier validation
     //     may vouch for a scope)
@@ -233,7 +273,7 @@ pub fn run(ctx: &Ctx) -> Report {
     Report {
         stats: st,
         rule: format!(
-            "(1) five-part credentials: 12 date variants (exact, -1 day, +1 day, 7 digits, trailing space, extended, empty, written-local date, and the numerically equal spellings +D, 0D, 00D, D.0) x 12 near-misses each of region, service and terminator (exact, prefix, suffix, x+v, v+x, UPPER, empty, look-alike, trailing blank, leading blank, lower, case-swapped) x {} server (region, service) pairs (incl. a mixed-case one, empty strings, non-ASCII and 300-character values) x {} request instants (incl. 23:59:59Z, 00:00:00Z and offsets whose UTC date differs from the written date) x signing mode A (correctly signed under the credential's own scope; provider returns that key unconditionally) / B (signed under the server's scope) x carrier; (2) credentials of 1..8 parts, with leading/trailing/double slashes, empty access key and no slash at all; (3) every sequence of 1..3 validations on one thread over 50 symbols (5 server configurations, one differing from another in letter case only, x credential scoped for any of the 5 x carrier): each judged as if it were alone. Oracle: reference verifier (Ok iff all five parts right; arity => IncompleteSignature/400; other mismatch => SignatureDoesNotMatch/403 also in mode A; provider asked iff scope fully correct, with (access key, token, UTC date, server region, server service)). states = distinct (stage, kind, provider ask)",
+            "(1) five-part credentials: 12 date variants (exact, -1 day, +1 day, 7 digits, trailing space, extended, empty, written-local date, and the numerically equal spellings +D, 0D, 00D, D.0) x 12 near-misses each of region, service and terminator (exact, prefix, suffix, x+v, v+x, UPPER, empty, look-alike, trailing blank, leading blank, lower, case-swapped) x {} server (region, service) pairs (incl. a mixed-case one, empty strings, non-ASCII and 300-character values) x {} request instants (incl. 23:59:59Z, 00:00:00Z and offsets whose UTC date differs from the written date) x signing mode A (correctly signed under the credential's own scope; provider returns that key unconditionally) / B (signed under the server's scope) x carrier; (2) credentials of 1..8 parts, with leading/trailing/double slashes, empty access key and no slash at all; (3) every sequence of 1..3 validations on one thread over 50 symbols (5 server configurations, one differing from another in letter case only, x credential scoped for any of the 5 x carrier): each judged as if it were alone; (4) 9 access keys (case variant, inner / trailing blank, literal percent signs, non-ASCII, one character) x 10 session tokens (none, reserved characters, literal percent signs, inner blanks, commas, non-ASCII, 4 kB, case variant, trailing blank) x carrier x token signed or not: the provider is asked for exactly that access key and token. Oracle: reference verifier (Ok iff all five parts right; arity => IncompleteSignature/400; other mismatch => SignatureDoesNotMatch/403 also in mode A; provider asked iff scope fully correct, with (access key, token, UTC date, server region, server service)). states = distinct (stage, kind, provider ask)",
             n_serv, n_inst
         ),
         bounds: json!({"servers": n_serv, "instants": n_inst, "cases": total1 + total2}),
